@@ -26,40 +26,45 @@ def basesOf (db : Db) (fuel : Nat) (rowid : Nat) : List Nat :=
       if fresh.isEmpty then acc else go f fresh (acc ++ fresh)
   go fuel [rowid] []
 
-/-- `DELETE FROM lexicons WHERE rowid = l` with foreign keys on -/
+/-! `DELETE FROM lexicons WHERE rowid = l` with foreign keys on: the rowids that the cascade reaches -/
+def entriesDel (db : Db) (l : Nat) : List Nat := (db.entries.filter (fun r => r.lex == l)).map (·.rowid)
+def synsetsDel (db : Db) (l : Nat) : List Nat := (db.synsets.filter (fun r => r.lex == l)).map (·.rowid)
+def formGone (db : Db) (l : Nat) (r : RForm) : Bool := r.lex == l || (entriesDel db l).contains r.entry
+def formsDel (db : Db) (l : Nat) : List Nat := (db.forms.filter (formGone db l)).map (·.rowid)
+def senseGone (db : Db) (l : Nat) (r : RSense) : Bool :=
+  r.lex == l || (entriesDel db l).contains r.entry || (synsetsDel db l).contains r.synset
+def sensesDel (db : Db) (l : Nat) : List Nat := (db.senses.filter (senseGone db l)).map (·.rowid)
+def sbsDel (db : Db) (l : Nat) : List Nat := (db.sbs.filter (fun r => r.lex == l)).map (·.rowid)
+/-- `ON DELETE SET NULL` of `lexicon_dependencies.provider_rowid` -/
+def unlinkProvider (l : Nat) (r : RDep) : RDep := if r.provider == some l then { r with provider := none } else r
+/-- `ON DELETE SET NULL` of `definitions.sense_rowid` -/
+def unlinkSense (gone : List Nat) (r : RDef) : RDef :=
+  match r.sense with
+  | some s => if gone.contains s then { r with sense := none } else r
+  | none => r
+
 def deleteLexicon (db : Db) (l : Nat) : Db :=
-  let entriesDel := (db.entries.filter (fun r => r.lex == l)).map (·.rowid)
-  let synsetsDel := (db.synsets.filter (fun r => r.lex == l)).map (·.rowid)
-  let formsKeep := db.forms.filter (fun r => !(r.lex == l || entriesDel.contains r.entry))
-  let formsDel := (db.forms.filter (fun r => r.lex == l || entriesDel.contains r.entry)).map (·.rowid)
-  let senseGone (r : RSense) : Bool := r.lex == l || entriesDel.contains r.entry || synsetsDel.contains r.synset
-  let sensesDel := (db.senses.filter senseGone).map (·.rowid)
-  let sbsDel := (db.sbs.filter (fun r => r.lex == l)).map (·.rowid)
   { db with
     lexicons := db.lexicons.filter (fun r => r.rowid != l)
-    deps := (db.deps.filter (fun r => r.dependent != l)).map
-      (fun r => if r.provider == some l then { r with provider := none } else r)
+    deps := (db.deps.filter (fun r => r.dependent != l)).map (unlinkProvider l)
     exts := db.exts.filter (fun r => r.ext != l)
     entries := db.entries.filter (fun r => r.lex != l)
-    forms := formsKeep
-    prons := db.prons.filter (fun r => !formsDel.contains r.form)
-    tags := db.tags.filter (fun r => !formsDel.contains r.form)
+    forms := db.forms.filter (fun r => !formGone db l r)
+    prons := db.prons.filter (fun r => !(formsDel db l).contains r.form)
+    tags := db.tags.filter (fun r => !(formsDel db l).contains r.form)
     synsets := db.synsets.filter (fun r => r.lex != l)
-    synrels := db.synrels.filter (fun r => !(r.lex == l || synsetsDel.contains r.source || synsetsDel.contains r.target))
-    defs := (db.defs.filter (fun r => !(r.lex == l || synsetsDel.contains r.synset))).map
-      (fun r => match r.sense with
-        | some s => if sensesDel.contains s then { r with sense := none } else r
-        | none => r)
-    synexs := db.synexs.filter (fun r => !(r.lex == l || synsetsDel.contains r.owner))
-    senses := db.senses.filter (fun r => !senseGone r)
-    senserels := db.senserels.filter (fun r => !(r.lex == l || sensesDel.contains r.source || sensesDel.contains r.target))
-    sensesynrels := db.sensesynrels.filter (fun r => !(r.lex == l || sensesDel.contains r.source || synsetsDel.contains r.target))
-    adjs := db.adjs.filter (fun r => !sensesDel.contains r.sense)
-    sensexs := db.sensexs.filter (fun r => !(r.lex == l || sensesDel.contains r.owner))
-    counts := db.counts.filter (fun r => !(r.lex == l || sensesDel.contains r.sense))
+    synrels := db.synrels.filter (fun r => !(r.lex == l || (synsetsDel db l).contains r.source || (synsetsDel db l).contains r.target))
+    defs := (db.defs.filter (fun r => !(r.lex == l || (synsetsDel db l).contains r.synset))).map (unlinkSense (sensesDel db l))
+    synexs := db.synexs.filter (fun r => !(r.lex == l || (synsetsDel db l).contains r.owner))
+    senses := db.senses.filter (fun r => !senseGone db l r)
+    senserels := db.senserels.filter (fun r => !(r.lex == l || (sensesDel db l).contains r.source || (sensesDel db l).contains r.target))
+    sensesynrels := db.sensesynrels.filter (fun r => !(r.lex == l || (sensesDel db l).contains r.source || (synsetsDel db l).contains r.target))
+    adjs := db.adjs.filter (fun r => !(sensesDel db l).contains r.sense)
+    sensexs := db.sensexs.filter (fun r => !(r.lex == l || (sensesDel db l).contains r.owner))
+    counts := db.counts.filter (fun r => !(r.lex == l || (sensesDel db l).contains r.sense))
     sbs := db.sbs.filter (fun r => r.lex != l)
-    sbsenses := db.sbsenses.filter (fun r => !(sbsDel.contains r.sb || sensesDel.contains r.sense))
-    pilis := db.pilis.filter (fun r => !synsetsDel.contains r.synset) }
+    sbsenses := db.sbsenses.filter (fun r => !((sbsDel db l).contains r.sb || (sensesDel db l).contains r.sense))
+    pilis := db.pilis.filter (fun r => !(synsetsDel db l).contains r.synset) }
 
 /-- one matched lexicon of `remove()`: its (transitive) extensions deepest first, then itself -/
 def removeLexicon (db : Db) (l : Nat) : Db :=
@@ -73,16 +78,19 @@ structure IliRow where
   definition : Option String := none
   deriving Repr
 
-def addIli (db : Db) (rows : List IliRow) : Db :=
-  let statuses := sortedSet (rows.map (fun r => r.status.getD "active"))
-  let db1 := { db with ilistatuses := statuses.foldl lookupInsert db.ilistatuses }
-  rows.foldl (fun db r =>
-    let st := (lookupId db.ilistatuses (r.status.getD "active")).getD 0
-    if db.ilis.any (fun x => x.id == r.ili) then
-      { db with ilis := db.ilis.map (fun x => if x.id == r.ili then { x with status := st, definition := r.definition } else x) }
-    else
-      let row : RIli := { rowid := nextId (db.ilis.map (·.rowid)), id := r.ili, status := st, definition := r.definition, md := none }
-      { db with ilis := db.ilis ++ [row] }) db1
+/-- one row of the `INSERT … ON CONFLICT(id) DO UPDATE SET status_rowid, definition` -/
+def iliStep (db : Db) (r : IliRow) : Db :=
+  let st := (lookupId db.ilistatuses (r.status.getD "active")).getD 0
+  if db.ilis.any (fun x => x.id == r.ili) then
+    { db with ilis := db.ilis.map (fun x => if x.id == r.ili then { x with status := st, definition := r.definition } else x) }
+  else
+    let row : RIli := { rowid := nextId (db.ilis.map (·.rowid)), id := r.ili, status := st, definition := r.definition, md := none }
+    { db with ilis := db.ilis ++ [row] }
+
+def addIliStatuses (db : Db) (rows : List IliRow) : Db :=
+  { db with ilistatuses := (sortedSet (rows.map (fun r => r.status.getD "active"))).foldl lookupInsert db.ilistatuses }
+
+def addIli (db : Db) (rows : List IliRow) : Db := rows.foldl iliStep (addIliStatuses db rows)
 
 /-- `_ili.load`: header-driven TSV; `dict(zip(fields, values))` truncates to the shorter list -/
 def splitTab (s : String) : List String := s.splitOn "\t"
